@@ -78,6 +78,11 @@ CLAIMED = {
    note="Trusted: the double barrier, the first-principles owner/rank formula in props/c17.rs. Queues in no mask: only silence is checked. Listener ids that cannot be delivered may be refused (acceptance creates the obligation). A hung teardown is diagnosed after 10 s with the worker threads' states and ends the run as a violation.",
    technique="exhaustive configuration enumeration + proptest sampling vs. first-principles routing oracle",
    ref="DESIGN.md section 3, C17"),
+ "C18": dict(level="exploration",
+   text="Stateful property testing across both real endpoints of the back-end-request channel: 6000 histories of up to 16 requests (five kinds, generated UUIDs and mapping descriptors, five descriptor kinds) issued on the real Backend proxy and forwarded by a recording tee (bytes and descriptors, both directions) to the real FrontendReqHandler served in a thread, with a scripted handler result per request (0, non-zero, errno, negative raw code, error without errno) and REPLY_ACK on/off (plus the asymmetric case: negotiated at the front end, not requested by the proxy). Checked per request: exactly one handler entry with equal arguments and the same open file, lent descriptors closed / kept as prescribed, proxy success iff status 0, acknowledgement bytes on the wire equal to the prescribed value and after their request, no acknowledgement bytes without NEED_REPLY.",
+   note="Trusted: spec.rs ack encoding, the tee (harness code) as the observation of the wire, fstat/fdinfo identities. Protocol-invalid arguments (nil / all-ones UUID, zero or wrapping lengths, undefined flags) are outside the claim and not generated; raw error code i32::MIN is excluded.",
+   technique="model-based property testing with proptest histories across both real endpoints and a recording tee",
+   ref="DESIGN.md section 3, C18"),
  "C20": dict(level="exploration",
    text="Exhaustive enumeration of a boundary lattice per message type (about 9.5 million bit patterns, complete for the lattice) plus random 64-bit patterns, each judged in both directions against an independent predicate written from the property text in u128 arithmetic. Validators are pure functions of a few integer fields whose rules only have boundaries at the lattice points, so lattice-exhaustive + random search is the right level; it is not a proof over all 2^k patterns.",
    note="Trusted: refpred.rs (hand-written from the property/spec), the verif-hooks accessors that expose the private header validators. Bit patterns the rules leave open (range ending exactly at 2^64, padding word of the single-region body, inflight mmap_size==0) are accepted either way and counted as spec_silent.",
